@@ -705,14 +705,8 @@ func (p *nfs41Program) opSequence(ctx context.Context, args *nfsv4.Sequence4args
 		// of the previous call, only after making sure that the
 		// cached response has the same shape as the request.
 		defer p.leave()
-		cachedResults := slot.lastResult.resArray[1:]
-		if len(cachedResults) > len(argArray) || (slot.lastResult.status == nfsv4.NFS4_OK && len(cachedResults) != len(argArray)) {
+		if slot.lastResult.isFalseRetry(argArray) {
 			return sequenceCompoundResultSeqFalseRetry
-		}
-		for i, res := range cachedResults {
-			if opNum := res.GetResop(); opNum != argArray[i].GetArgop() && opNum != nfsv4.OP_ILLEGAL {
-				return sequenceCompoundResultSeqFalseRetry
-			}
 		}
 		return slot.lastResult
 	case slot.lastSequenceID + 1:
@@ -722,7 +716,15 @@ func (p *nfs41Program) opSequence(ctx context.Context, args *nfsv4.Sequence4args
 			ch := make(chan compoundResult, 1)
 			slot.currentSequenceWaiters = append(slot.currentSequenceWaiters, ch)
 			p.leave()
-			return <-ch
+			// The request that is being processed may be a
+			// different one that merely reuses the sequence
+			// ID. Don't hand its results to this caller if
+			// they don't have the shape of this request.
+			result := <-ch
+			if result.isFalseRetry(argArray) {
+				return sequenceCompoundResultSeqFalseRetry
+			}
+			return result
 		}
 
 		// Throw away the previously cached results, as we know
@@ -1219,6 +1221,23 @@ func (sid *nfs41RegularStateID) incrementSeqID() {
 type compoundResult struct {
 	resArray []nfsv4.NfsResop4
 	status   nfsv4.Nfsstat4
+}
+
+// isFalseRetry returns whether the results of a previous request on
+// the same slot with the same sequence ID cannot be the results of the
+// request with the operations provided. In that case the request is
+// not a retransmission, but a false retry.
+func (cr *compoundResult) isFalseRetry(argArray []nfsv4.NfsArgop4) bool {
+	results := cr.resArray[1:]
+	if len(results) > len(argArray) || (cr.status == nfsv4.NFS4_OK && len(results) != len(argArray)) {
+		return true
+	}
+	for i, res := range results {
+		if opNum := res.GetResop(); opNum != argArray[i].GetArgop() && opNum != nfsv4.OP_ILLEGAL {
+			return true
+		}
+	}
+	return false
 }
 
 func newSequenceCompoundResultForError(status nfsv4.Nfsstat4) compoundResult {
